@@ -2566,7 +2566,7 @@ func containerValuesNonNil(c *Check, a *Anchors) {
 				why+": a null entry (`KEY:` / `KEY: ~`) is stored as a nil element and dereferenced when the task is compiled or listed (nil-pointer panic instead of a decode error)")
 		}
 	}
-	c.Floor("container-values-non-nil", n, 4)
+	c.Floor("container-values-non-nil", n, 3) // (a minimum against vacuity: two stores of one decoder may be merged into one)
 }
 
 // lockReleasedOnEveryExit (C16 / C07): no return leaves a mutex locked.
